@@ -87,6 +87,41 @@ def synth(seq):
     return _SYN[seq]
 
 
+_COMBOS = None
+
+
+def combos():
+    """model strings that belong to TWO families of one vendor at once (a Quidway switch of the -EI line: 'Huawei S5700-EI'): the
+    minimal model of sequence A followed by the sample of B's own (last) regex, kept when every regex of both chains matches"""
+    global _COMBOS
+    if _COMBOS is not None:
+        return _COMBOS
+    from vf.model.regexsample import samples
+    d = db()
+    out = []
+    seqs = list(d)
+    for a in seqs:
+        pa = a.split(".")
+        if len(pa) < 2 or not synth(a):
+            continue
+        for b in seqs:
+            pb = b.split(".")
+            if len(pb) < 2 or pb[0] != pa[0] or pb[1] == pa[1] or a >= b:
+                continue
+            chain = {".".join(pa[:i + 1]) for i in range(len(pa))} | {".".join(pb[:i + 1]) for i in range(len(pb))}
+            base = synth(a)[0]
+            for smp in samples(d[b])[:2]:
+                for cand in (base + smp, base + " " + smp.strip()):
+                    if all(re.search(d[c], cand) for c in chain):
+                        out.append((a, b, cand))
+                        break
+                else:
+                    continue
+                break
+    _COMBOS = out
+    return out
+
+
 def enumerate_cases(tier, shard, nshards):
     from vf.core.runner import HarnessError
     from vf.model import sut
@@ -105,6 +140,11 @@ def enumerate_cases(tier, shard, nshards):
         i += 1
         if i % nshards == shard:
             yield {"enum": True, "seq": None, "model": sut.registry()[v].hardware.model, "soft": "", "canonical_of": v}
+    for a, b, model in combos():
+        for soft in (SOFTS if tier == "thorough" else SOFTS[:2]):
+            i += 1
+            if i % nshards == shard:
+                yield {"enum": True, "seq": a, "seq2": b, "model": model, "soft": soft}
 
 
 @st.composite
@@ -171,6 +211,11 @@ def check(case):
             raise Violation("own-sequence-false", f"model {model!r} satisfies the regex chain of {case['seq']} but that sequence is not true", det)
         if len(own) >= 2:
             labels.append("depth>=2")
+    if case.get("seq2"):
+        own2 = tuple(case["seq2"].split("."))
+        if own2 not in tset:
+            raise Violation("own-sequence-false", f"model {model!r} satisfies the regex chain of {case['seq2']} but that sequence is not true", det)
+        labels.append("two-families")
     for t in tset:
         for i in range(1, len(t)):
             if t[:i] in known and t[:i] not in tset:
@@ -211,10 +256,17 @@ def check(case):
         got.add(v.NAME if v is not None else None)
     det["vendors"] = sorted(map(str, got))
     det["matching"] = matching
-    if len(got) > 1:
+    ambiguous = bool(case.get("seq2")) and matching and exp is None
+    if ambiguous:
+        # a synthetic two-family string on which two vendors' expressions are equally specific (a 'Nexus' that is also an 'XR'): there is
+        # no most specific vendor to choose, the statement does not apply; the rulebook of whichever vendor is chosen must still load
+        labels.append("two-families-no-most-specific-vendor")
+    elif len(got) > 1:
         raise Violation("vendor-depends-on-registration-order", f"model {model!r} resolves to {sorted(map(str, got))} depending on the order "
                         f"vendors are registered in (matching expressions: {matching})", det)
-    vendor = got.pop()
+    vendor = sorted(map(str, got))[0] if ambiguous else got.pop()
+    if ambiguous:
+        vendor = hw.vendor
     if matching and exp is not None and vendor != exp:
         raise Violation("not-most-specific-vendor", f"model {model!r} resolves to {vendor!r}, the most specific matching vendor is {exp!r}", det)
     if case.get("canonical_of") and vendor != case["canonical_of"]:
